@@ -2,7 +2,7 @@
 # Build the overlay venv for the checks (offline; wheelhouse only). Idempotent.
 set -e
 cd "$(dirname "$0")"
-V=/verif/.venv
+V="$(pwd)/.venv"
 if [ -x "$V/bin/python" ] && "$V/bin/python" -c 'import z3, jsonschema' 2>/dev/null; then
     exit 0
 fi
